@@ -43,7 +43,7 @@ func (v FuncParam) Reduce(ctx ReductionContext) (definitions.FuncParam, error) {
 
 	// Find the parameter's attribute in the receiver's annotations
 	var paramDescription string
-	paramAttrib := v.Annotations.FindFirstByValue(v.Name)
+	paramAttrib := v.Annotations.FindFirstParameterBinding(v.Name)
 	if paramAttrib != nil {
 		// Note that nil here is not valid and should be rejected at the validation stage
 		paramDescription = paramAttrib.Description
